@@ -71,6 +71,10 @@ func RunPlan(t *testing.T, p *plan.Plan, trace bool, emitEarly func(*EpisodeResu
 	if p.Cfg.MaxBytesLen > 0 {
 		tengo.MaxBytesLen = p.Cfg.MaxBytesLen
 	}
+	if p.Cfg.NoGC && !p.Cfg.PoolShare {
+		oldGC := debug.SetGCPercent(-1)
+		defer debug.SetGCPercent(oldGC)
+	}
 	if p.Cfg.PoolShare {
 		// what a sync.Pool hands out must be a function of the episode alone: one P
 		// (no per-P caches to miss), no collection (no pool clearing) while it runs
